@@ -17,12 +17,20 @@ type stats struct {
 	lifetimeConnections uint64
 }
 
-func (s *stats) incrementConnections() {
-	defer s.logServerStats()
+// Increment the connection counter, unless all connection slots are taken already.
+func (s *stats) incrementConnections() error {
 	s.mutex.Lock()
+	if s.currentConnections >= config.Server.MaxConnections {
+		s.mutex.Unlock()
+		return fmt.Errorf("Exceeded max allowed concurrent connections of %d",
+			config.Server.MaxConnections)
+	}
 	s.currentConnections++
 	s.lifetimeConnections++
 	s.mutex.Unlock()
+
+	s.logServerStats()
+	return nil
 }
 
 func (s *stats) decrementConnections() {
